@@ -54,6 +54,8 @@ type task struct {
 	yields    uint64 // task-local yield count (the schedule's clock)
 	opYields  uint64 // yields since the current API call began
 	swIdx     int    // next entry of sw[] to consider
+	aborting  bool   // this task has been sent the Abort panic
+	grace     uint64 // yields let through since then (deferred calls while unwinding)
 	fn        func()
 	panicked  interface{}
 	stack     []byte
@@ -186,7 +188,7 @@ func Begin(c Config) {
 	pSeam = uint64(c.PSeam * 4294967296.0)
 	opBudget = c.OpBudget
 	if opBudget == 0 {
-		opBudget = 50000000
+		opBudget = 2000000000
 	}
 	if !recMode {
 		for _, s := range c.Switches {
@@ -414,8 +416,28 @@ func switchTo(next int) {
 	<-tasks[me].wake
 	raceEnable()
 	if aborted {
-		panic(&Abort{abortWhy})
+		abortPoint()
 	}
+}
+
+// abortPoint is called at a scheduling point of an aborted run.  The first
+// time a task gets here it is sent the Abort panic.  While that panic unwinds
+// the task's stack, deferred instrumented functions reach scheduling points
+// again: panicking in each of them would make unwinding a deep stack
+// quadratic, so those are let through.  If the task nevertheless keeps going
+// (the panic was swallowed by a recover in the code under test) it is sent the
+// panic again after a large number of further steps.
+//
+//go:norace
+func abortPoint() {
+	t := &tasks[cur]
+	if t.aborting && t.grace < 20000000 {
+		t.grace++
+		return
+	}
+	t.aborting = true
+	t.grace = 0
+	panic(&Abort{abortWhy})
 }
 
 // Yield is a scheduling point.  site identifies the program location.
@@ -440,7 +462,8 @@ func Tick(site int) {
 		return
 	}
 	if aborted {
-		panic(&Abort{abortWhy})
+		abortPoint()
+		return
 	}
 	t := &tasks[cur]
 	t.opYields++
@@ -449,7 +472,7 @@ func Tick(site int) {
 		stats.HangTask = cur
 		aborted = true
 		abortWhy = "step budget exceeded"
-		panic(&Abort{abortWhy})
+		abortPoint()
 	}
 }
 
@@ -477,7 +500,8 @@ func OpBegin() {
 //go:norace
 func yieldPoint(site int, seam bool) {
 	if aborted {
-		panic(&Abort{abortWhy})
+		abortPoint()
+		return
 	}
 	t := &tasks[cur]
 	t.yields++
@@ -490,7 +514,8 @@ func yieldPoint(site int, seam bool) {
 		stats.HangTask = cur
 		aborted = true
 		abortWhy = "step budget exceeded"
-		panic(&Abort{abortWhy})
+		abortPoint()
+		return
 	}
 	if ntasks < 2 {
 		return
